@@ -156,6 +156,105 @@ func runC01(p *load.Program, r *core.Report) {
 	r.Floor("C01m.P5", 4)
 	c01Init(a, r)
 	c01P6(a, r)
+	c01P7(a, r)
+}
+
+// c01P7: user callbacks of the behaviour layers (ActorBehavior, SupervisorBehavior, PoolBehavior,
+// WebWorkerBehavior) are invoked only from code that runs inside ProcessInit / ProcessRun /
+// ProcessTerminate of that layer, i.e. under the token that node.process holds for them.
+func c01P7(a *Anchors, r *core.Report) {
+	rule := "C01.P7 behaviour-callbacks-under-the-runner"
+	r.Floor(rule, 4)
+	procB := ifaceOf(a.P, "gen", "ProcessBehavior")
+	// layer types: structs in act implementing gen.ProcessBehavior
+	type layer struct {
+		name    string
+		entries []*ssa.Function
+	}
+	layers := map[string]*layer{}
+	for _, f := range funcsOfPkgs(a.P, "act") {
+		if f.Parent() != nil || f.Signature.Recv() == nil || !types.Implements(f.Signature.Recv().Type(), procB) {
+			continue
+		}
+		n := namedOf(f.Signature.Recv().Type())
+		if layers[n] == nil {
+			layers[n] = &layer{name: n}
+		}
+		switch f.Name() {
+		case "ProcessInit", "ProcessRun", "ProcessTerminate":
+			layers[n].entries = append(layers[n].entries, f)
+		}
+	}
+	var names []string
+	for n := range layers {
+		names = append(names, n)
+	}
+	sort.Strings(names)
+	for _, n := range names {
+		l := layers[n]
+		// functions reachable by static calls from the entries (within act)
+		reach := map[*ssa.Function]bool{}
+		var work []*ssa.Function
+		for _, e := range l.entries {
+			reach[e] = true
+			work = append(work, e)
+		}
+		for len(work) > 0 {
+			f := work[len(work)-1]
+			work = work[:len(work)-1]
+			for _, g := range family(f) {
+				reach[g] = true
+				eachInstr(g, func(in ssa.Instruction) {
+					if _, isGo := in.(*ssa.Go); isGo {
+						return
+					}
+					if cc := callCommon(in); cc != nil {
+						if sf := staticCallee(cc); sf != nil && pkgSuffix(sf) == "act" && !reach[sf] {
+							reach[sf] = true
+							work = append(work, sf)
+						}
+					}
+				})
+			}
+		}
+		// every invoke on this layer's user-behaviour interface (the type of its `behavior` field)
+		var bad []string
+		count := 0
+		for _, f := range funcsOfPkgs(a.P, "act") {
+			rt := root(f)
+			if rt.Signature.Recv() == nil || namedOf(rt.Signature.Recv().Type()) != n {
+				continue
+			}
+			eachInstr(f, func(in ssa.Instruction) {
+				cc := callCommon(in)
+				if cc == nil || !cc.IsInvoke() {
+					return
+				}
+				_, path, ok := fieldPath(cc.Value)
+				if !ok || len(path) == 0 || path[len(path)-1] != "behavior" {
+					return
+				}
+				count++
+				if _, isGo := in.(*ssa.Go); isGo {
+					bad = append(bad, cc.Method.Name()+" started as a goroutine at "+a.P.Pos(in.Pos()))
+					return
+				}
+				if !reach[f] && !reach[rt] {
+					bad = append(bad, cc.Method.Name()+" invoked from "+fname(f)+" at "+a.P.Pos(in.Pos())+", which does not run under ProcessInit/ProcessRun/ProcessTerminate")
+				}
+			})
+		}
+		key := "C01.P7|" + n
+		inst := n + ": user callbacks are invoked only from code running under ProcessInit / ProcessRun / ProcessTerminate"
+		if count == 0 {
+			continue
+		}
+		if len(bad) > 0 {
+			r.Bad(rule, key, n, "", inst, strings.Join(bad, "; ")+" — that callback can run concurrently with the process's own handler")
+		} else {
+			r.OK(rule, key, n, "", inst, fmt.Sprintf("%d callback invocation sites, all reachable only from the three entry points (%d functions)", count, len(reach)))
+		}
+	}
 }
 
 // c01Init: ProcessInit / meta Init are invoked only before the object is published and only once.
